@@ -173,3 +173,75 @@ func VerifC02_q_sharedPoolSticky() {
 	verifAssert("C02/shared-pool-sticky", len(now) == 1 && len(heldByA) == 1 && now[0] == heldByA[0], "the replacement pod of a deployment in a shared pool was bound with another IP than the one its predecessor held for the pool")
 	w.checkAll("C02", "binding the replacement in a shared pool")
 }
+
+// BOUND: topology 1 (4 IPs); a deployment (replicas 2) with a reserving policy (immutable, never) or a named pool p1; both pods bound; both are deleted and their events handled (two addresses in reserve); two replacement pods are created; both are filtered (in either order) before either is bound, then both are bound on an approved node. Each replacement must be bound with one of the two addresses the app held, the two must differ, and the app holds no more addresses than replicas
+func VerifC02_q_twoReplacements() {
+	w := vpNewWorld(1, false)
+	if err := w.configure(); err != nil {
+		return
+	}
+	w.setDeployment(2)
+	policy, pool := "", ""
+	switch nondetChoice(3) {
+	case 0:
+		policy = "immutable"
+	case 1:
+		policy = "never"
+	case 2:
+		pool = "p1"
+	}
+	held := map[string]bool{}
+	for i := 0; i < 2; i++ {
+		name := vpPodNameOf(vpKindDp, i)
+		w.createPod(vpMakePod(name, "U"+name, vpKindDp, policy, pool, ""))
+		w.syncListers()
+		nodes, err := w.filter(name, "n1", "n2", "n3")
+		if err != nil || len(nodes) == 0 || w.bind(name, nodes[0]) != nil {
+			return
+		}
+		w.setRunning(name)
+		for _, ip := range vpBoundIPs(w.pods[name]) {
+			held[ip] = true
+		}
+	}
+	w.syncListers()
+	for i := 0; i < 2; i++ {
+		w.deletePod(vpPodNameOf(vpKindDp, i))
+		w.syncListers()
+		for len(w.pending) > 0 {
+			_ = w.handleEvent(0)
+		}
+	}
+	repl := []string{vpPodNameOf(vpKindDp, 7), vpPodNameOf(vpKindDp, 8)}
+	if nondetBool() {
+		repl[0], repl[1] = repl[1], repl[0]
+	}
+	approved := map[string][]string{}
+	for _, r := range repl {
+		w.createPod(vpMakePod(r, "U"+r, vpKindDp, policy, pool, ""))
+		w.syncListers()
+		nodes, err := w.filter(r, "n1", "n2", "n3")
+		if err != nil || len(nodes) == 0 {
+			return
+		}
+		approved[r] = nodes
+	}
+	seen := map[string]bool{}
+	for _, r := range repl {
+		nodes := approved[r]
+		berr := w.bind(r, nodes[nondetChoice(len(nodes))])
+		verifAssert("C02/two-replacements-bind", berr == nil, "Bind of a replacement pod failed on a node its Filter approved (the address Filter had re-keyed to it is gone)")
+		if berr != nil {
+			return
+		}
+		w.setRunning(r)
+		for _, ip := range vpBoundIPs(w.pods[r]) {
+			verifAssert("C02/two-replacements-take-held-ips", held[ip], "a replacement pod was bound with a fresh address although the app held addresses in reserve")
+			verifAssert("C02/two-replacements-differ", !seen[ip], "two replacement pods of one app were bound with the same address")
+			seen[ip] = true
+		}
+	}
+	w.syncListers()
+	verifReach("two-replacements-bound")
+	w.checkAll("C02", "binding two replacement pods that were filtered before either was bound")
+}
